@@ -78,10 +78,12 @@ impl Substance {
         } else {
             for prop in self.properties.properties.values() {
                 if name == prop.output_name {
-                    let input = (&prop.input / &self.amount)
+                    // How many times the property's input the amount
+                    // is (a zero amount is none of it, not an error).
+                    let times = (&self.amount / &prop.input)
                         .ok_or_else(|| SubstanceGetError::Generic("Division by zero".to_owned()))?;
-                    if input.dimless() {
-                        let res = (&prop.output / &input).ok_or_else(|| {
+                    if times.dimless() {
+                        let res = (&prop.output * &times).ok_or_else(|| {
                             SubstanceGetError::Generic("Division by zero".to_owned())
                         })?;
                         return Ok(res);
@@ -92,10 +94,10 @@ impl Substance {
                         ));
                     }
                 } else if name == prop.input_name {
-                    let output = (&prop.output / &self.amount)
+                    let times = (&self.amount / &prop.output)
                         .ok_or_else(|| SubstanceGetError::Generic("Division by zero".to_owned()))?;
-                    if output.dimless() {
-                        let res = (&prop.input / &output).ok_or_else(|| {
+                    if times.dimless() {
+                        let res = (&prop.input * &times).ok_or_else(|| {
                             SubstanceGetError::Generic("Division by zero".to_owned())
                         })?;
                         return Ok(res);
@@ -201,19 +203,21 @@ impl Substance {
             })
         } else {
             let func = |(_k, v): (&String, &Property)| {
-                let input = try_div!(v.input, self.amount, context);
-                let output = try_div!(v.output, self.amount, context);
+                // How many times the property's input (or output) the
+                // amount is; a zero amount is none of it, not an error.
+                let input = try_div!(self.amount, v.input, context);
+                let output = try_div!(self.amount, v.output, context);
                 let (name, input, output) = if input.dimless() {
                     if v.output.unit != unit.unit {
                         return Ok(None);
                     }
-                    let div = try_div!(v.output, input, context);
+                    let div = (&v.output * &input).expect("Multiplication does not fail");
                     (v.output_name.clone(), None, div)
                 } else if output.dimless() {
                     if v.input.unit != unit.unit {
                         return Ok(None);
                     }
-                    let div = try_div!(v.input, output, context);
+                    let div = (&v.input * &output).expect("Multiplication does not fail");
                     (v.input_name.clone(), None, div)
                 } else {
                     return Ok(None);
@@ -314,13 +318,15 @@ impl Substance {
             })
         } else {
             let func = |(_k, v): (&String, &Property)| {
-                let input = try_div!(v.input, self.amount, context);
-                let output = try_div!(v.output, self.amount, context);
+                // How many times the property's input (or output) the
+                // amount is; a zero amount is none of it, not an error.
+                let input = try_div!(self.amount, v.input, context);
+                let output = try_div!(self.amount, v.output, context);
                 let (name, input, output) = if input.dimless() {
-                    let div = try_div!(v.output, input, context);
+                    let div = (&v.output * &input).expect("Multiplication does not fail");
                     (v.output_name.clone(), None, div)
                 } else if output.dimless() {
-                    let div = try_div!(v.input, output, context);
+                    let div = (&v.input * &output).expect("Multiplication does not fail");
                     (v.input_name.clone(), None, div)
                 } else {
                     return Ok(None);
